@@ -50,3 +50,121 @@ theorem compensation (m t : Affine) (h : m.det ≠ 0) (p : Q × Q) :
 
 end Affine
 end Ufo2ft
+
+namespace Ufo2ft
+open List
+
+/-! ### ReverseContourPointPen laws -/
+
+@[simp] theorem Pt.map_seg (t : Affine) (p : Pt) : (p.map t).seg = p.seg := rfl
+
+theorem Pt.map_compose (s o : Affine) (p : Pt) : p.map (s.compose o) = (p.map o).map s := by
+  simp only [Pt.map, Affine.apply_compose]
+
+theorem Contour.map_compose (s o : Affine) (c : Contour) :
+    Contour.map (s.compose o) c = Contour.map s (Contour.map o c) := by
+  simp only [Contour.map, List.map_map]
+  apply List.map_congr_left; intro p _; exact Pt.map_compose s o p
+
+theorem Pt.map_id (p : Pt) : p.map Affine.id = p := by
+  cases p; simp [Pt.map, Affine.apply_id]
+
+theorem Contour.map_id (c : Contour) : Contour.map Affine.id c = c := by
+  simp only [Contour.map]
+  rw [List.map_congr_left (g := fun p => p) (fun p _ => Pt.map_id p)]; simp
+
+theorem retype_map (t : Affine) (l : List Pt) (s : Option Seg) :
+    retype (l.map (Pt.map t)) s = (retype l s).map (Pt.map t) := by
+  induction l generalizing s with
+  | nil => rfl
+  | cons p l ih =>
+    simp only [List.map_cons, retype, Pt.map_seg]
+    cases hp : p.seg with
+    | none => simp [ih]
+    | some x => simp [ih]; rfl
+
+theorem firstOnCurve_map (t : Affine) (l : List Pt) : firstOnCurve (l.map (Pt.map t)) = firstOnCurve l := by
+  induction l with
+  | nil => rfl
+  | cons p l ih =>
+    simp only [List.map_cons, firstOnCurve, Pt.map_seg]
+    cases p.seg <;> simp [ih]
+
+theorem dropWhile_offcurve_map (t : Affine) (l : List Pt) :
+    (l.map (Pt.map t)).dropWhile (fun p => p.seg.isNone) = (l.dropWhile (fun p => p.seg.isNone)).map (Pt.map t) := by
+  induction l with
+  | nil => rfl
+  | cons p l ih =>
+    simp only [List.map_cons, List.dropWhile_cons, Pt.map_seg]
+    by_cases h : p.seg.isNone = true
+    · simp only [h, if_true]; exact ih
+    · simp only [h]; simp
+
+/-- **reversal commutes with affine maps**: `ReverseContourPointPen(TransformPointPen(out, T))` emits the same
+    points as transforming first and reversing after. -/
+theorem reverseContour_map (t : Affine) (c : Contour) :
+    reverseContour (Contour.map t c) = Contour.map t (reverseContour c) := by
+  cases c with
+  | nil => rfl
+  | cons p0 rest =>
+    simp only [Contour.map, List.map_cons, reverseContour, Pt.map_seg]
+    by_cases h : p0.seg = some Seg.move
+    · simp only [h, if_true]
+      rw [← List.map_cons, ← List.map_reverse, dropWhile_offcurve_map, retype_map]
+    · simp only [h, if_false]
+      rw [← List.map_reverse, ← List.map_cons (f := Pt.map t), retype_map]
+      congr 1
+      have : rest.map (Pt.map t) ++ [p0.map t] = (rest ++ [p0]).map (Pt.map t) := by simp
+      rw [this, firstOnCurve_map]
+
+/-! ### sign of a product of determinants -/
+
+theorem mul_neg_iff_xor {a b : Q} (ha : a ≠ 0) (hb : b ≠ 0) : a * b < 0 ↔ ((a < 0 ∧ 0 < b) ∨ (0 < a ∧ b < 0)) := by
+  have htri : a < 0 ∨ a = 0 ∨ 0 < a := by grind
+  rcases htri with h | h | h
+  · have hna : 0 < -a := by grind
+    have e : a * b = -((-a) * b) := by grind
+    rw [e]
+    constructor
+    · intro hlt
+      have : 0 < (-a) * b := by grind
+      exact Or.inl ⟨h, (Rat.mul_pos_iff_of_pos_left hna).mp this⟩
+    · rintro (⟨_, hb'⟩ | ⟨ha', _⟩)
+      · have := (Rat.mul_pos_iff_of_pos_left hna).mpr hb'; grind
+      · grind
+  · exact absurd h ha
+  · rw [Rat.mul_neg_iff_of_pos_left h]
+    constructor
+    · intro hb'; exact Or.inr ⟨h, hb'⟩
+    · rintro (⟨ha', _⟩ | ⟨_, hb'⟩)
+      · grind
+      · exact hb'
+
+/-- **bake lemma**: drawing contours through the pens of one level (matrix `T`) and then drawing the result through
+    the pens of the next level (matrix `S`) is the same as drawing once with the composed matrix — reversal decided
+    level by level (parity of negative levels) coincides with reversal by the composed determinant — provided both
+    matrices are non-singular and reversal is an involution on the contours at hand. -/
+theorem bake (s t : Affine) (hs : s.det ≠ 0) (ht : t.det ≠ 0) (cs : List Contour)
+    (hinv : ∀ c ∈ cs, reverseContour (reverseContour c) = c) :
+    drawContours true s (drawContours true t cs) = drawContours true (s.compose t) cs := by
+  simp only [drawContours, List.map_map, Bool.true_and]
+  apply List.map_congr_left
+  intro c hc
+  simp only [Function.comp]
+  have hdet := Affine.det_compose s t
+  have hx := mul_neg_iff_xor hs ht
+  by_cases h1 : s.det < 0 <;> by_cases h2 : t.det < 0
+  · have h3 : ¬ (s.compose t).det < 0 := by rw [hdet, hx]; grind
+    simp only [h1, h2, h3, decide_true, decide_false, if_true, Bool.false_eq_true, if_false]
+    rw [reverseContour_map, hinv c hc, Contour.map_compose]
+  · have h3 : (s.compose t).det < 0 := by rw [hdet, hx]; left; exact ⟨h1, by grind⟩
+    simp only [h1, h2, h3, decide_true, decide_false, if_true, Bool.false_eq_true, if_false]
+    rw [reverseContour_map, Contour.map_compose]
+  · have h3 : (s.compose t).det < 0 := by rw [hdet, hx]; right; exact ⟨by grind, h2⟩
+    simp only [h1, h2, h3, decide_true, decide_false, if_true, Bool.false_eq_true, if_false]
+    rw [Contour.map_compose]
+  · have h3 : ¬ (s.compose t).det < 0 := by rw [hdet, hx]; grind
+    simp only [h1, h2, h3, decide_false, Bool.false_eq_true, if_false]
+    rw [Contour.map_compose]
+
+end Ufo2ft
